@@ -33,6 +33,9 @@ type apWorld struct {
 	answered map[string]bool      // "cb/k": the callback has given its verdict on write k of the current connection
 	val      int                  // model: value id stored
 	ent2gone bool
+	oldMsgs  map[string]*api.Message // messages of the previous connection the application may still hold
+	req      map[int]int             // model: number of callbacks write k was presented to
+	extra    int                     // callbacks added after set-up
 }
 
 //go:norace
@@ -43,7 +46,7 @@ func (a *apWorld) present(cb int, m *api.Message) {
 }
 
 func newAPWorld(n int) *apWorld {
-	a := &apWorld{w: stdWorld(false, "A", "B"), n: n, msgs: map[string]*api.Message{}, shown: map[string]int{}, conn: true, pending: map[int]map[int]bool{}, used: map[int]bool{}, answered: map[string]bool{}, val: 1}
+	a := &apWorld{w: stdWorld(false, "A", "B"), n: n, msgs: map[string]*api.Message{}, shown: map[string]int{}, conn: true, pending: map[int]map[int]bool{}, used: map[int]bool{}, answered: map[string]bool{}, val: 1, oldMsgs: map[string]*api.Message{}, req: map[int]int{}}
 	a.f = a.w.L.FeatureByAddress(srvAddr("L1lc", true))
 	a.f.SetData(fnLimit, limitList(1, 1, 2))
 	for i := 0; i < n; i++ {
@@ -77,14 +80,15 @@ func (a *apWorld) apply(op string, judge bool) (viol []string, digest string, ef
 		effect = true
 		a.used[k] = true
 		a.pending[k] = map[int]bool{}
-		for i := 0; i < a.n; i++ {
+		a.req[k] = a.n + a.extra
+		for i := 0; i <= a.n+1; i++ {
 			delete(a.shown, fmt.Sprintf("%d/%d", i, k))
 		}
 		pe.SetCounter(uint64(100 + k - 1))
 		d := pe.Datagram(cliAddr("A", "e1f1", true), srvAddr("L1lc", true), model.CmdClassifierTypeWrite, true, nil, model.CmdType{LoadControlLimitListData: limitList(2+k, 1, 2)})
 		pe.Deliver(d)
 		rt.WaitIdle()
-		for i := 0; i < a.n; i++ {
+		for i := 0; i < a.n+a.extra; i++ {
 			if c := a.shown[fmt.Sprintf("%d/%d", i, k)]; c != 1 && judge {
 				viol = append(viol, fmt.Sprintf("a write was not presented exactly once to every callback | callback=%d times=%d op=%s", i, c, op))
 			}
@@ -103,7 +107,7 @@ func (a *apWorld) apply(op string, judge bool) (viol []string, digest string, ef
 			a.f.ApproveOrDenyWrite(m, model.ErrorType{ErrorNumber: 0})
 			if p, ok := a.pending[k]; ok {
 				p[cb] = true
-				if len(p) == a.n {
+				if len(p) == a.req[k] { // every callback the write was presented to
 					delete(a.pending, k)
 					a.val = 2 + k
 					res(k, true)
@@ -116,6 +120,26 @@ func (a *apWorld) apply(op string, judge bool) (viol []string, digest string, ef
 				res(k, false)
 			}
 		}
+	case "apold":
+		// the application answers a write of the PREVIOUS connection (it still holds that message) after the peer
+		// came back and a write with the same counter is pending again: the old write is gone, the verdict is void
+		cb, k := atoi(f[1]), atoi(f[2])
+		m := a.oldMsgs[fmt.Sprintf("%d/%d", cb, k)]
+		if m == nil {
+			break
+		}
+		effect = true
+		delete(a.oldMsgs, fmt.Sprintf("%d/%d", cb, k))
+		a.f.ApproveOrDenyWrite(m, model.ErrorType{ErrorNumber: 0})
+	case "addcb":
+		// one more approval callback is registered while writes may be pending: they keep the set they were presented to
+		if a.extra >= 1 {
+			break
+		}
+		effect = true
+		i := a.n + a.extra
+		a.extra++
+		_ = a.f.AddWriteApprovalCallback(func(m *api.Message) { a.present(i, m) })
 	case "fire":
 		var ks []int
 		for k := range a.pending {
@@ -154,6 +178,11 @@ func (a *apWorld) apply(op string, judge bool) (viol []string, digest string, ef
 			effect = true
 			a.conn = true
 			a.used = map[int]bool{}
+			for k, m := range a.msgs {
+				if !a.answered[k] {
+					a.oldMsgs[k] = m
+				}
+			}
 			a.msgs = map[string]*api.Message{}
 			a.answered = map[string]bool{}
 			pe = a.w.ConnectAndAnnounce("A", "dA", []world.EntSpec{clientEntity([]uint{1}), clientEntity([]uint{2})})
@@ -199,7 +228,12 @@ func (a *apWorld) key() string {
 		ms = append(ms, "answered "+k)
 	}
 	sort.Strings(ms)
-	return fmt.Sprintf("%s conn=%v ent2gone=%v val=%s shown=%v used=%v timers=%d", s[:strings.Index(s, " cbs=")], a.conn, a.ent2gone, world.JSON(a.f.DataCopy(fnLimit)), ms, us, rt.PendingTimers())
+	var om []string
+	for k := range a.oldMsgs {
+		om = append(om, k)
+	}
+	sort.Strings(om)
+	return fmt.Sprintf("old=%v extra=%d req=%v ", om, a.extra, a.req) + fmt.Sprintf("%s conn=%v ent2gone=%v val=%s shown=%v used=%v timers=%d", s[:strings.Index(s, " cbs=")], a.conn, a.ent2gone, world.JSON(a.f.DataCopy(fnLimit)), ms, us, rt.PendingTimers())
 }
 
 func c12Drivers(thorough bool) []*engine.HDriver {
@@ -213,7 +247,10 @@ func c12Drivers(thorough bool) []*engine.HDriver {
 				alpha = append(alpha, fmt.Sprintf("ap:%d:%d", cb, k), fmt.Sprintf("dn:%d:%d", cb, k))
 			}
 		}
-		alpha = append(alpha, "fire", "disc", "reconn", "entrm2")
+		alpha = append(alpha, "fire", "disc", "reconn", "entrm2", "addcb")
+		for cb := 0; cb < n; cb++ {
+			alpha = append(alpha, fmt.Sprintf("apold:%d:0", cb))
+		}
 		return &engine.HDriver{Name: fmt.Sprintf("approval-histories callbacks=%d writes=%d", n, writes), Alphabet: alpha,
 			Step: func(hist []string, op string) engine.HStep {
 				a := newAPWorld(n)
